@@ -116,9 +116,20 @@ class SymMath(types.ModuleType):
         return SymFloat(z3.If(t >= 0, t, -t))
 
     def _floor(self, x):
+        x = _conc(x)
         if not _any_sym(x):
             return _math.floor(x)
-        raise core.SymLeak('math.floor on symbolic value')
+        # integer k with k <= x < k + 1 (one k per distinct argument on a path)
+        eng = engine()
+        t = z3.simplify(lift(x))
+        key = ('floor', t.sexpr())
+        hit = eng.summaries.get(key)
+        if hit is not None:
+            return SymInt(hit[0])
+        k = eng.fresh_int('floor')
+        eng.add_axiom(z3.And(z3.ToReal(k) <= t, t < z3.ToReal(k) + 1))
+        eng.summaries[key] = (k, [])
+        return SymInt(k)
 
     def _radians(self, x):
         if not _any_sym(x):
